@@ -21,6 +21,7 @@ DECLINED = ["'by some stream that schedules its pool' and completion before fina
             "duplication caused by a user pool that hands a unit out twice"]
 ASSUMPTIONS = ["C02 (context switch), C07 (built-in pools)"]
 RULES_DOC = dict(common.SHARED_DOC)
+RULES_DOC["X8"] = common.X8_DOC
 RULES_DOC["R11"] = "= C06.R2: a resumed unit is pushed before it stops being counted as blocked (never in flight and unaccounted: a stream may not terminate under it)"
 RULES_DOC["R12"] = "= C07.R1: every queue operation installed for a shared access mode runs under the pool lock (no unit lost or handed out twice)"
 RULES_DOC["R13"] = "= C12.R4: revive clears every pending request before the unit is pushed (a stale cancel/migrate request does not swallow the revived run)"
@@ -28,6 +29,8 @@ RULES_DOC["R14"] = "RANDWS scheduler: the pool it steals from ranges over every 
 RULES_DOC["R15"] = "= C07.R7: the batch push hands every non-NULL handle to the pool exactly once (compaction with one counter)"
 RULES_DOC["X4"] = common.X4_DOC
 RULES_DOC["R16"] = "work-unit constructors initialise every ABTI_thread field that a revive re-initialises (state, request, function, argument, parent, last stream): descriptors are recycled by the memory pool, so a constructor that leaves `request` alone lets a new unit inherit a stale cancel or migration request"
+RULES_DOC["R18"] = "= C11.R4: yield_to takes the target out of the TARGET's pool: removing from the caller's pool drops another unit that waits there and leaves the target queued for a second start"
+RULES_DOC["R19"] = "= C13.R4: a unit is migrated only to a stream observed RUNNING under the stream-list lock: pushed to the pool of a joined stream it would never complete"
 RULES_DOC["R17"] = "= C06.R1/R3/R4: a unit that blocks is counted on the pool it belongs to after request handling (a blocked unit whose pool looks idle is lost when the only stream of that pool is joined)"
 RULES_DOC.update({
     "R1": "create/revive push the unit exactly once iff pool_op == PUSH, never on error paths",
@@ -592,6 +595,7 @@ def rule_R16(P, rep):
 
 
 def run(P, rep, tier):
+    common.rule_X8(P, rep)
     common.rule_X4(P, rep)
     common.run_shared(P, rep, which=("X1",))
     rule_R1_R2(P, rep)
@@ -610,3 +614,6 @@ def run(P, rep, tier):
     common.borrow(rep, P, C07.rule_R7, "R15")
     rule_R16(P, rep)
     common.borrow(rep, P, C06.rule_R1_R3_R4, "R17")
+    from . import C11, C13
+    common.borrow(rep, P, C11.rule_R4, "R18")
+    common.borrow(rep, P, C13.rule_R4, "R19")
